@@ -81,7 +81,7 @@ def main(chk):
         else:
             ok[rec['kind']] += 1
             if k % 97 == 0:
-                chk.sample({'kind': rec['kind'], 'expression': rec['e'], 'expected_train_value': rec['train']})
+                chk.sample({'kind': rec['kind'], 'expression': rec['e'], 'expected_train_value': json.dumps(rec['train'])[:400] + ' ...'})
     chk.validated(sum(ok.values()))
     chk.extra['expressions'] = {'folds': f'2..{maxk}', 'generated': len(recs), 'conforming': ok}
     # binding self-test (independent of the code under test): an internally consistent but leaky wiring - train and test
